@@ -118,6 +118,28 @@ def decode_side(rec, hb, pvl, tier, seed, part, nparts):
         for dialect in datespec.DIALECTS:
             exp = datespec.read(text, dialect)
             if exp[0] == "not-temporal":
+                # no claim about the value, but only ValueError may come out
+                rec.count("not_temporal_exception_type_checks")
+                try:
+                    decs[dialect].decode_datetime(text)
+                except ValueError:
+                    pass
+                except Exception as e:
+                    rec.violation(CHECK, dialect, "decode-raises-undocumented-type",
+                                  {"form": label, "exc": type(e).__name__},
+                                  {"dialect": dialect, "text": text, "form": label},
+                                  f"decode_datetime({text!r}) raised {e!r}")
+                if n % 3 == 0:
+                    try:
+                        pvl.loads(f"T = {text}\n", parser=parsers[dialect])
+                    except (LexerError, ParseError):
+                        pass
+                    except Exception as e:
+                        rec.violation(CHECK, dialect, "load-raises-undocumented-type",
+                                      {"form": label, "exc": type(e).__name__},
+                                      {"dialect": dialect, "text": text,
+                                       "doc": f"T = {text}\n"},
+                                      f"loads('T = {text}') raised {e!r}")
                 continue
             wit = {"dialect": dialect, "text": text, "form": label,
                    "spec": repr(exp)}
